@@ -1682,34 +1682,29 @@ impl Relation {
         builder.token(R_ANGLE.into(), ">");
         builder.finish_node();
 
-        let node_profiles = self.0.children().find(|n| n.kind() == PROFILES);
-        if let Some(node_profiles) = node_profiles {
-            let new_root = SyntaxNode::new_root_mut(builder.finish());
-            self.0.splice_children(
-                node_profiles.index()..node_profiles.index() + 1,
-                vec![new_root.into()],
-            );
+        // A relation may carry several restriction lists: add the new one after the last.
+        let idx = match self.0.children().filter(|n| n.kind() == PROFILES).last() {
+            Some(last_profiles) => last_profiles.index() + 1,
+            None => self.0.children_with_tokens().count(),
+        };
+        let new_root = SyntaxNode::new_root_mut(self.0.green().splice_children(
+            idx..idx,
+            vec![
+                GreenToken::new(WHITESPACE.into(), " ").into(),
+                builder.finish().into(),
+            ],
+        ));
+        if let Some(parent) = self.0.parent() {
+            parent.splice_children(self.0.index()..self.0.index() + 1, vec![new_root.into()]);
+            self.0 = parent
+                .children_with_tokens()
+                .nth(self.0.index())
+                .unwrap()
+                .clone()
+                .into_node()
+                .unwrap();
         } else {
-            let idx = self.0.children_with_tokens().count();
-            let new_root = SyntaxNode::new_root_mut(self.0.green().splice_children(
-                idx..idx,
-                vec![
-                    GreenToken::new(WHITESPACE.into(), " ").into(),
-                    builder.finish().into(),
-                ],
-            ));
-            if let Some(parent) = self.0.parent() {
-                parent.splice_children(self.0.index()..self.0.index() + 1, vec![new_root.into()]);
-                self.0 = parent
-                    .children_with_tokens()
-                    .nth(self.0.index())
-                    .unwrap()
-                    .clone()
-                    .into_node()
-                    .unwrap();
-            } else {
-                self.0 = new_root;
-            }
+            self.0 = new_root;
         }
     }
 
